@@ -6,6 +6,7 @@ PROP = {
         {"name": "recv_enum", "mode": "enum"},
         {"name": "recv_cfg", "quick": 1500000, "thorough": 20000000, "maxlen": 700},
         {"name": "recv_legacy", "quick": 800000, "thorough": 10000000, "maxlen": 700},
+        {"name": "recv_custom", "quick": 800000, "thorough": 10000000, "maxlen": 700},
         {"name": "recv_rearm", "quick": 600000, "thorough": 8000000, "maxlen": 700},
         {"name": "recv_large", "quick": 60000, "thorough": 800000, "maxlen": 3500},
     ],
